@@ -1314,8 +1314,39 @@ def _diff(ex, args, kwargs, fr):
     if len(c.shape) != 1:
         raise Unsupported("np.diff of a non 1-D array")
     n = z_int(c.shape[0])
+    extra = {k: v for k, v in kwargs.items() if k not in ("axis", "n", "prepend") and not isinstance(v, VNone)}
+    if extra or (len(args) > 1 and not (isinstance(args[1], VInt) and is_conc(args[1].v) and args[1].v == 1)):
+        raise Unsupported("np.diff with n != 1 / append")
+    pre = kwargs.get("prepend")
+    if pre is not None and not isinstance(pre, VNone):
+        # diff(a, prepend=p): differences of [p, a0, a1, ...] -- as many as a has elements (p: a number or a 1-element array)
+        if ex.is_arr(pre):
+            pc = cell(ex, pre)
+            if not (len(pc.shape) == 1 and is_conc(pc.shape[0]) and int(pc.shape[0]) == 1):
+                raise Unsupported("np.diff(prepend=<array of several elements>)")
+            pv = pc.elem((z3.IntVal(0),))
+        elif is_num(pre):
+            pv = pre
+        else:
+            raise Unsupported("np.diff(prepend=...)")
+        prev = lambda i: ite_val(i == 0, pv, c.elem((i - 1,)))
+        return new_array(ex, (n,), result_dtype(ex, args[0], pre) if ex.is_arr(pre) else (VDtype("float64") if isinstance(pre, VFloat) else c.dtype),
+                         lambda ix: arith(ex.cfg, ast.Sub(), c.elem((z_int(ix[0]),)), prev(z_int(ix[0]))))
     return new_array(ex, (z3.simplify(z3.If(n > 0, n - 1, 0)),), c.dtype,
                      lambda ix: arith(ex.cfg, ast.Sub(), c.elem((z_int(ix[0]) + 1,)), c.elem((z_int(ix[0]),))))
+
+
+@npfn("numpy.atleast_1d")
+def _atleast_1d(ex, args, kwargs, fr):
+    v = args[0]
+    if ex.is_arr(v):
+        c = cell(ex, v)
+        if len(c.shape) >= 1:
+            return v                                   # numpy: the SAME array when it has a dimension already
+        return new_array(ex, (1,), c.dtype, lambda ix: c.elem(()))
+    if is_num(v):
+        return new_array(ex, (1,), VDtype("float64" if isinstance(v, VFloat) else "int64"), lambda ix: v)
+    raise Unsupported("np.atleast_1d of a non-array")
 
 
 @npfn("numpy.concatenate")
